@@ -186,12 +186,25 @@ def fl : List String → String
       | "sfloor" => showF (floorGo a)
       | "ceil" => showF (ceilJS a)
       | "sceil" => showF (ceilGo a)
+      | "frexp" => let r := frexp a; s!"{showF r.1} {r.2}"
       | "modf" => showModf (modf a)
       | "smodf" => showModf (modfGo a)
       | _ => "bad-op"
   | ["copysign", x, y] =>
     match x.toNat?, y.toNat? with
     | some x, some y => showF (copysign x y)
+    | _, _ => "bad-op"
+  | ["ldexp", x, e] =>
+    match x.toNat?, e.toInt? with
+    | some x, some e => match ldexp x e with
+      | some b => showF b
+      | none => "-"
+    | _, _ => "bad-op"
+  | ["sldexp", x, e] =>
+    match x.toNat?, e.toInt? with
+    | some x, some e => match ldexpGo x e with
+      | some b => showF b
+      | none => "-"
     | _, _ => "bad-op"
   | ["isinf", x, sg] =>
     match x.toNat?, sg.toInt? with
